@@ -144,6 +144,25 @@ CHECKS.update({
     tech='TLA+ configuration lattice + reference semantics; every configuration replayed into the implementation'),
 })
 
+CHECKS.update({
+ 'C19': dict(engine=PEG, cat='model_checking', ref='DESIGN.md §7 C19',
+    text='Meta.tla gives the grouping of unparenthesised operator chains (precedence climbing over the rows of '
+         'grammar.txt; LawLeftAssoc/LawLevels model-checked); TLC (MC_C19) enumerates abstract expressions x five spelling '
+         'vectors (operator vs constructor forms per node, = : =>, newline vs ;, comments, parentheses, line breaks, bare '
+         'expression) and operator chains of 2-3 operators over every row; the harness renders the spelling / chain text '
+         'and the outcome must equal PegSem on the abstract expression',
+    note='trusted: Meta!Group as the reading of grammar.txt, the renderer as producing only documented spellings; bound: '
+         'parent/child pairs, chains <= 3 operators, inputs <= 4-5',
+    tech='TLA+ precedence/spelling model enumerated by TLC; rendered descriptions replayed into the implementation'),
+ 'C20': dict(engine=PEG, cat='model_checking', ref='DESIGN.md §7 C20',
+    text='TLC (MC_C20) applies every renaming (identifier of a role-covering base grammar -> pool name) to the abstract '
+         'grammar, model-checks LawRenaming (Eval(rho(g)) = rho(Eval(g))) and computes the outcome of the renamed grammar; '
+         'pool = temporaries look-alikes + builtins + constructor names + every identifier of the generated source; the '
+         'harness compiles the renamed description and compares; builtin-shadowing findings are listed per (name, role)',
+    note='trusted: PegSem; bound: single-identifier renamings of one base grammar (14 roles) x pool (~110 fixed + dynamic)',
+    tech='TLA+ renaming law + reference semantics enumerated by TLC; renamed descriptions replayed into the implementation'),
+})
+
 PENDING = {}
 
 
